@@ -24,8 +24,9 @@ class D:
         return self._draw(st.integers(lo, hi))
 
     def bool(self, p=0.5):
-        # shrinks towards False
-        return self._draw(st.integers(0, 999)) >= 1000 - int(p * 1000)
+        # shrinks towards False.  The range is kept <= 256: hypothesis draws wider integer ranges non-uniformly
+        # (measured: P[integers(0,999) >= 700] = 0.16), which silently halved every nominal probability.
+        return self._draw(st.integers(0, 199)) >= 200 - int(round(p * 200))
 
     def choice(self, seq):
         seq = list(seq)
